@@ -96,6 +96,7 @@ def runC04 (c : CaseIn) : Array String := Id.run do
   let mut pending : List (Nat × String × String) := []   -- (line, fault, text) reported at the end (shape needs `asked`)
   let mut final : Option (Nat × Obs × Bool × Bool × String) := none
   let mut finalSync : Option SyncObs := none
+  let mut askedHdrs : List (Nat × Nat) := []
   for (ln, line) in c.lines do
     let (op, obs) := splitObs line
     let ws := words op
@@ -141,6 +142,10 @@ def runC04 (c : CaseIn) : Array String := Id.run do
     | ["asked", i] =>
       let lied := (words obs).getLast? == some "1"
       peers := peers.map fun p => if p.idx == nat! i then { p with lied := lied } else p
+      -- `getheaders <n> …`: how many getheaders requests this peer received from the client
+      match words obs with
+      | "getheaders" :: n :: _ => askedHdrs := askedHdrs ++ [(nat! i, nat! n)]
+      | _ => pure ()
     | ["stop"] =>
       if obs == "HANG" then pending := pending ++ [(ln, "stop-hang", "Stop did not return within 15 s")]
     | ["setup"] | ["start"] =>
@@ -157,10 +162,22 @@ def runC04 (c : CaseIn) : Array String := Id.run do
       for f in syncFaults sy o.conn ahead do
         pending := pending ++ [(ln, f, txt)]
   | none => out := out.push s!"DIFF C04 case {c.num} line 0: case has no final observation"
+  -- recorded finding `synced-on-lighter-peer-higher-peer-never-asked`: the client finished its sync with a
+  -- peer on a lighter branch, reports itself current on that (valid) branch, and never sent a getheaders to
+  -- any honest peer although they were connected all along (they connected while it was not yet current,
+  -- and the honest chain does not grow, so no inv ever arrives)
+  let neverAsked := match final with
+    | some (_, o, ch, _, _) =>
+      ch && peers.any (·.kind == .lighterFork) && !(honestIdx peers).isEmpty &&
+      (honestIdx peers).all (fun i => o.conn.contains i && askedHdrs.contains (i, 0))
+    | none => false
   for (ln, f, txt) in pending do
     if !seen.contains f then
       seen := f :: seen
-      out := out.push s!"ORACLE-FAIL C04 case {c.num} line {ln}: shape={shapeOf lone peers f} {f}: honest tip {g.honestHeight}:{g.honestId}; observed {txt}"
+      let sh := shapeOf lone peers f
+      let sh := if neverAsked && (f == "no-convergence" || f == "no-filter-convergence") && sh == f
+        then "synced-on-lighter-peer-higher-peer-never-asked" else sh
+      out := out.push s!"ORACLE-FAIL C04 case {c.num} line {ln}: shape={sh} {f}: honest tip {g.honestHeight}:{g.honestId}; observed {txt}"
   return out
 
 /-! ### C13: no connected peer has a banned address -/
